@@ -119,8 +119,7 @@ func blockOut(b *ssa.BasicBlock, m, mu bool, isLock, isUnlock func(ssa.Instructi
 
 func runC05(c *Ctx) {
 	p := c.P
-	lck := p.Field("internal", "poller", "lck")
-	posts := p.Field("internal", "poller", "posts")
+	posts, lck := p.postQueueFields()
 	pending := p.Field("internal", "poller", "pending")
 	closed := p.Field("internal", "poller", "closed")
 	lockM := p.ExtMethod("sync", "Mutex", "Lock")
